@@ -8,7 +8,7 @@
 (*         values per byte, low nibble first, sign extended; int8/16/32/64   *)
 (*         little endian given as already assembled integers), and           *)
 (*         | dequantize(q_e) - w_e | <= step/2 (symmetric) or step           *)
-(*         (asymmetric), element by element, with a slack of step/4096 for   *)
+(*         (asymmetric), element by element, with a slack of step/64 for     *)
 (*         the float rounding of a near-tie                                  *)
 (*  "bias" stored bias code = round_half_even(b / (s_in * s_w)) unless it    *)
 (*         saturates the bias type (exact below 2^20; above, float32         *)
@@ -41,7 +41,7 @@ DecOK ==
                        hiR == Dequantize(QMax(V.bits), sc, zp)  loR == Dequantize(lo, sc, zp)
                        clipped == RLt(hiR, Rat(V.w[e])) \/ RLt(Rat(V.w[e]), loR)
                    IN /\ codes[e] \in lo..QMax(V.bits)
-                      /\ (clipped \/ RLe(err, RAdd(bound, RDiv(sc, RInt(4096)))))
+                      /\ (clipped \/ RLe(err, RAdd(bound, RDiv(sc, RInt(64)))))
                       /\ clipped => codes[e] \in {lo, QMax(V.bits)}
   IN [id |-> V.id, kind |-> "dec", lenok |-> lenok, elems |-> \A e \in 1..n : elemok(e),
       firstbad |-> IF \A e \in 1..n : elemok(e) THEN 0 ELSE CHOOSE e \in 1..n : ~elemok(e)]
